@@ -173,6 +173,7 @@ class World:
         self.pool = {}          # kind -> [uid]
         self.secret = {}        # uid -> bytes
         self.version = (1, 2)
+        self.scratch = []       # temporary paths (masked in the secret-swap comparison)
         self.user = 'alice'
 
     def close(self):
